@@ -133,14 +133,16 @@ def produceMerged (hasType : Bool) (intervals : List (Blk × Strand)) : RA (Stra
 def mergedTranscript (hasType : Bool) (cs : List Child) : RA (Strand × List Blk) :=
   produceMerged hasType (cs.flatMap fun c => singlesOf c.strand c.blocks)
 
+/-- the CDS blocks of one transcript as SingleIntervals (`if tx.is_coding: for i in tx.cds.chromosome_location.blocks`) -/
+def cdsSingles (c : Child) : List (Blk × Strand) :=
+  match c.cds with
+  | some l => singlesOf c.strand l
+  | none => []
+
 /-- `get_merged_cds` -/
 def mergedCds (hasType : Bool) (cs : List Child) : RA (Strand × List Blk) :=
-  let intervals := cs.flatMap fun c =>
-    match c.cds with
-    | some l => singlesOf c.strand l
-    | none => []
-  if intervals.isEmpty then throw (.doc .NoncodingTranscript)
-  else produceMerged hasType intervals
+  if (cs.flatMap cdsSingles).isEmpty then throw (.doc .NoncodingTranscript)
+  else produceMerged hasType (cs.flatMap cdsSingles)
 
 /-! ### FeatureIntervalCollection -/
 
